@@ -365,11 +365,7 @@ Proof.
 Qed.
 
 (* the predicate, for every poll that starts with the recovery-pipe timer idle *)
-Definition pipe_idle (f : vfp) : bool :=
-  match f_t_recovery_pipe f with None => true | Some _ => false end.
-
-Definition c02_timer_ok_g (c : vconfig) (st : fstep) : bool :=
-  if pipe_idle (fs_pre st) then c02_timer_ok c st else true.
+(* pipe_idle, c02_timer_ok_g: Conn/C02_Pred.v *)
 
 Theorem c02_timer_ok_step : forall cfg (s : vsock) o,
   ti s -> pipe_idle (fp_of_vsock cci s) = true -> c02_timer_ok cfg (fstep_of cci s o) = true.
